@@ -18,15 +18,14 @@ the header's extent and the number of children from the size and count fields; t
 header followed by the old rest; and mutagen loads it (`L'.OK`: its parsers accept the four metadata
 objects it wrote).
 
-Not covered by "well-formed": the File Properties Object is a foreign object and stays byte-identical,
-so its File Size field is not updated when the header grows or shrinks (reported by the harness). -/
+The File Size field of the File Properties Object is kept up to date: `asf_file_size_field_correct`. -/
 theorem asf_save_wellformed (L : Asf.Layout) (h : L.OK) (tags : List Asf.Tag) (d : Asf.Dist)
     (hd : Asf.distribute tags = .ok d) (P : Asf.Payloads) (hP : Asf.Renders d P) (pad : PadChoice)
     (hf : L.Fits P (Asf.newPadding L P pad)) :
     ∃ L' : Asf.Layout, Asf.save L.render tags pad = .ok L'.render ∧ L'.OK ∧ Asf.readLayout L'.render = some L' ∧
       Asf.parseSize L'.render = .ok (L'.headerLen, L'.top.length) ∧ L'.render.length = L'.headerLen + L.rest.length := by
   have hok := Asf.after_OK' L h P (Asf.renders_parses d P hP) _ hf
-  exact ⟨L.after P (Asf.newPadding L P pad), (Asf.save_layout L h tags d hd P hP pad hf.ext).2, hok,
+  exact ⟨L.after P (Asf.newPadding L P pad), (Asf.save_layout L h tags d hd P hP pad hf).2, hok,
     Asf.readLayout_layout _ hok, Asf.Layout.parseSize_render _ hok, Asf.Layout.render_length _⟩
 
 /-- ASF delete leaves a well-formed layout -/
@@ -34,8 +33,28 @@ theorem asf_delete_wellformed (L : Asf.Layout) (h : L.OK) (hf : L.Fits Asf.empty
     ∃ L' : Asf.Layout, Asf.delete L.render = .ok L'.render ∧ L'.OK ∧ Asf.readLayout L'.render = some L' ∧
       Asf.parseSize L'.render = .ok (L'.headerLen, L'.top.length) ∧ L'.render.length = L'.headerLen + L.rest.length := by
   have hok := Asf.after_OK' L h Asf.emptyPayloads Asf.parses_empty 0 hf
-  exact ⟨L.after Asf.emptyPayloads 0, Asf.delete_layout L h hf.ext, hok, Asf.readLayout_layout _ hok,
+  exact ⟨L.after Asf.emptyPayloads 0, Asf.delete_layout L h hf, hok, Asf.readLayout_layout _ hok,
     Asf.Layout.parseSize_render _ hok, Asf.Layout.render_length _⟩
+
+/-- the File Size field is right after a save: on a well-formed layout with a File Properties Object
+among the children of the Header Object (its payload has at least 64 bytes, or the file would not
+load), the saved layout's first File Properties Object carries, in payload bytes 16..24, the length
+of the saved file -/
+theorem asf_file_size_field_correct (L : Asf.Layout) (h : L.OK) (tags : List Asf.Tag) (d : Asf.Dist)
+    (hd : Asf.distribute tags = .ok d) (P : Asf.Payloads) (hP : Asf.Renders d P) (pad : PadChoice)
+    (hf : L.Fits P (Asf.newPadding L P pad)) (hfp : L.top.any Asf.Item.isFP = true) :
+    ∃ L' : Asf.Layout, Asf.save L.render tags pad = .ok L'.render ∧ Asf.readLayout L'.render = some L' ∧
+      Asf.fileSizeField L'.top = some L'.render.length :=
+  ⟨L.after P (Asf.newPadding L P pad), (Asf.save_layout L h tags d hd P hP pad hf).2,
+    Asf.readLayout_layout _ (Asf.after_OK' L h P (Asf.renders_parses d P hP) _ hf), Asf.after_fileSize L h P _ hf hfp⟩
+
+/-- … and after a delete -/
+theorem asf_file_size_field_correct_delete (L : Asf.Layout) (h : L.OK) (hf : L.Fits Asf.emptyPayloads 0)
+    (hfp : L.top.any Asf.Item.isFP = true) :
+    ∃ L' : Asf.Layout, Asf.delete L.render = .ok L'.render ∧ Asf.readLayout L'.render = some L' ∧
+      Asf.fileSizeField L'.top = some L'.render.length :=
+  ⟨L.after Asf.emptyPayloads 0, Asf.delete_layout L h hf,
+    Asf.readLayout_layout _ (Asf.after_OK' L h _ Asf.parses_empty 0 hf), Asf.after_fileSize L h _ 0 hf hfp⟩
 
 /-- the strict reader inverts `render` on every well-formed layout -/
 theorem asf_strict_reader_reads_layout (L : Asf.Layout) (h : L.OK) : Asf.readLayout L.render = some L :=
@@ -60,7 +79,7 @@ theorem asf_load_total (f : Bytes) : Asf.parseFull f ≠ .error .diverge :=
 /-- the hypotheses are satisfiable -/
 example : Asf.exLayout.OK ∧ Asf.distribute Asf.exTags = .ok Asf.exDist ∧ Asf.Renders Asf.exDist Asf.exPayloads ∧
     Asf.exLayout.Fits Asf.exPayloads (Asf.newPadding Asf.exLayout Asf.exPayloads .default) ∧
-    Asf.exLayout.Fits Asf.emptyPayloads 0 := by
-  refine ⟨by decide +kernel, by decide +kernel, by decide +kernel, by decide +kernel, by decide +kernel⟩
+    Asf.exLayout.Fits Asf.emptyPayloads 0 ∧ Asf.exLayout.top.any Asf.Item.isFP = true := by
+  refine ⟨by decide +kernel, by decide +kernel, by decide +kernel, by decide +kernel, by decide +kernel, by decide +kernel⟩
 
 end Mutagen.C03
